@@ -12,6 +12,7 @@ use crate::bgp::message::notification::{
     OpenMessageSubcode,
 };
 use crate::bgp::message::open::{Capability, OpenBuilder};
+use crate::bgp::message::update::FourOctetAsns;
 use crate::bgp::message::{
     Message as BgpMsg, NotificationMessage, SessionConfig, UpdateMessage,
 };
@@ -927,14 +928,15 @@ impl<C: BgpConfig + Send> Session<C> {
 
                 let received_addpaths = open_msg.addpath_families_vec()
                     .map_err(|_| Error { msg: "failed to parse addpath caps" })?;
-                let intersection = received_addpaths.iter().filter(|(fam, dir)|{
-                    matches!(
-                        dir,
-                        AddpathDirection::Send |
-                        AddpathDirection::SendReceive
-                    ) &&
+                // We advertise SendReceive for our ADD-PATH families (see
+                // send_open): the negotiated direction is the merge of that
+                // with what the peer advertised, from our perspective.
+                let intersection = received_addpaths.iter().filter(|(fam, _dir)|{
                     self.config.addpath().contains(fam)
-                }).map(|(fam, dir)| AddpathFamDir::new(*fam, *dir)).collect::<Vec<_>>();
+                }).filter_map(|(fam, dir)| {
+                    AddpathDirection::SendReceive.merge(*dir)
+                        .map(|dir| AddpathFamDir::new(*fam, dir))
+                }).collect::<Vec<_>>();
                 debug!("addpath intersection: {:?}", &intersection);
 
 
@@ -950,6 +952,12 @@ impl<C: BgpConfig + Send> Session<C> {
                 };
                 self.send_open();
                 self.set_negotiated_config(negotiated.clone());
+                // Four-octet ASNs only if the peer announced them as well.
+                if let Some(c) = self.connection.as_mut() {
+                    c.session_config_mut().set_four_octet_asns(
+                        FourOctetAsns(open_msg.four_octet_capable())
+                    );
+                }
                 debug!(
                     "Negotiated: {}@{} id {:?}, hold time {}s",
                     negotiated.remote_asn,
@@ -1225,14 +1233,15 @@ impl<C: BgpConfig + Send> Session<C> {
 
                 let received_addpaths = open_msg.addpath_families_vec()
                     .map_err(|_| Error { msg: "failed to parse addpath caps" })?;
-                let intersection = received_addpaths.iter().filter(|(fam, dir)|{
-                    matches!(
-                        dir,
-                        AddpathDirection::Send |
-                        AddpathDirection::SendReceive
-                    ) &&
+                // We advertise SendReceive for our ADD-PATH families (see
+                // send_open): the negotiated direction is the merge of that
+                // with what the peer advertised, from our perspective.
+                let intersection = received_addpaths.iter().filter(|(fam, _dir)|{
                     self.config.addpath().contains(fam)
-                }).map(|(fam, dir)| AddpathFamDir::new(*fam, *dir)).collect::<Vec<_>>();
+                }).filter_map(|(fam, dir)| {
+                    AddpathDirection::SendReceive.merge(*dir)
+                        .map(|dir| AddpathFamDir::new(*fam, dir))
+                }).collect::<Vec<_>>();
                 debug!("addpath intersection: {:?}", &intersection);
 
                 let negotiated = NegotiatedConfig {
@@ -1256,6 +1265,12 @@ impl<C: BgpConfig + Send> Session<C> {
 
 
                 self.set_negotiated_config(negotiated.clone());
+                // Four-octet ASNs only if the peer announced them as well.
+                if let Some(c) = self.connection.as_mut() {
+                    c.session_config_mut().set_four_octet_asns(
+                        FourOctetAsns(open_msg.four_octet_capable())
+                    );
+                }
                 let _ = self.channel.send(Message::SessionNegotiated(negotiated)).await;
 
                 //- sends a KEEPALIVE message, and
